@@ -1,5 +1,5 @@
 (* Codec/Props_codec.v — property theorems of the codec area (statement + `exact lemma` only). *)
-From FlacCodec Require Import Parser_proofs Wf Spec Roundtrip_sub Roundtrip_hdr Roundtrip_frame Agree_frame Totality Progress Stream EncChoice Damage Prefix Interrupted.
+From FlacCodec Require Import Parser_proofs Wf Spec Roundtrip_sub Roundtrip_hdr Roundtrip_frame Agree_frame Totality Progress Stream EncChoice Damage Prefix Interrupted Inverse Inverse_frame.
 From FlacBase Require Import Crc.
 Open Scope N_scope.
 
@@ -42,6 +42,18 @@ Proof.
   - apply dec_frame_agree; auto.
   - apply spec_decode_write; auto.
 Qed.
+
+(* C17, the other direction: for every frame the structural parser accepts, writing the parsed tree
+   back yields the original bytes, provided what the tree does not record is canonical (reserved header
+   bit 0, minimal-length frame number, zero padding bits) — the hypothesis of the property *)
+Theorem C17_write_inverts_parse : forall si bytes f rest,
+  Forall byte bytes -> struct_frame si bytes = Ok (f, rest) -> frame_canonical si bytes = true ->
+  exists b, write_frame f = Some b /\ bytes = b ++ rest.
+Proof. exact frame_inv. Qed.
+(* at subframe level no side condition is needed: the tree records every bit *)
+Theorem C17_subframe_write_inverts_parse : forall bs bps s sf r,
+  struct_subframe bs bps s = Ok (sf, r) -> s = write_subframe bps sf ++ r.
+Proof. exact struct_subframe_inv. Qed.
 
 (* C04: no byte string makes the frame decoder panic ... *)
 Theorem C04_frame_total : forall si chk bytes,
